@@ -1,17 +1,17 @@
 CONSTANTS
   Dev = {}
   Segmented = FALSE
-  Families = {"api", "cl", "chunk", "bigchunk"}
+  Families = {}
   CodeMode = "all"
-  HdrK = 1
+  HdrK = 4
   MaxHdrs = 1
-  MaxBody = 2
+  MaxBody = 3
   BodyMode = "len"
   StyleMode = "one"
-  PhraseMode = "free"
-  ManyMode = "none"
+  PhraseMode = "reg"
+  ManyMode = "all"
   MaxBig = 17
-INIT MCInit
+INIT ExtraInit
 NEXT GenNext
-INVARIANT GenInv
+INVARIANT ExtraInv
 CHECK_DEADLOCK FALSE
